@@ -16,6 +16,7 @@ import (
 	"github.com/jech/storrent/protocol"
 
 	"verifharness/vhlib"
+	"verifharness/wirecanon"
 )
 
 type blk struct{ i, b uint32 }
@@ -226,12 +227,22 @@ func (o *oracle) onOutput(out []protocol.Message, evs []peer.TorEvent, cur []str
 			if int64(m.Index) >= int64(g.num) && !o.wildHave[m.Index] {
 				o.v("have-range:donthave", fmt.Sprintf("DontHave{%d} with %d pieces", m.Index, g.num), cur)
 			}
-		case protocol.ExtendedPex:
-			o.pexMessage(m, cur)
+		case protocol.ExtendedPex: // judged when it reaches the wire (onWire), in queue order
 		case protocol.Interested, protocol.NotInterested:
 		default:
 			o.v("unexpected-message:"+fmt.Sprintf("%T", m), fmt.Sprintf("%v", m), cur)
 		}
+	}
+}
+
+// onWire: the writer takes a message off the queue.  Its content is what the remote sees;
+// `was` is its canonical form when it was queued.
+func (o *oracle) onWire(m protocol.Message, was string, cur []string) {
+	if now := wirecanon.Canon(m); was != "" && now != was {
+		o.v(fmt.Sprintf("queued-message-mutated:%T", m), "queued as `"+was+"`, on the wire `"+now+"`", cur)
+	}
+	if pm, ok := m.(protocol.ExtendedPex); ok {
+		o.pexMessage(pm, cur)
 	}
 }
 
@@ -279,18 +290,11 @@ func (o *oracle) finish(caseOps []string) {
 	pn := vhlib.Recover(func() {
 		s.p.VerifSetWriter(s.realW, s.wDone)
 		for round := 0; round < 8; round++ {
-			for len(s.realW) > 0 {
-				<-s.realW
-			}
-			s.shadow = nil
+			s.drain(len(s.realW), caseOps)
 			peer.VerifSendPex(s.p)
-			out, _ := s.collect()
-			for _, m := range out {
-				if pm, ok := m.(protocol.ExtendedPex); ok {
-					o.pexMessage(pm, caseOps)
-				}
-			}
+			s.collect()
 		}
+		s.drain(len(s.realW), caseOps)
 	})
 	if pn != "" {
 		o.v("panic:pex-flush", pn, caseOps)
